@@ -123,8 +123,9 @@ LShutdownEnd == /\ Is("shutdown_end")
                 /\ (~Persistent => q = <<>>)
                 /\ UNCHANGED <<absVars, Block, WFR, NCons, pend, popped, outcome, finished, ended>>
 
+\* read after every accepted request's export call returned (and the completion had time to run): zero
 LFinalSize == /\ Is("final_size")
-              /\ (~Persistent => E.value - 1 = 0)
+              /\ E.value - 1 = 0
               /\ E.value - 1 >= 0 /\ E.value - 1 <= Cap
               /\ UNCHANGED <<absVars, Block, WFR, NCons, pend, popped, outcome, finished, ended>>
 
